@@ -47,6 +47,10 @@ def name_pool():
     return out
 
 
+BOOKKEEPING = ["NOT_FOUND", "not_found", "NOTFOUND", "DEFAULT", "default", "MISSING", "missing", "UNKNOWN", "unknown", "NONE", "EMPTY", "table", "_table", "cache", "_cache", "lookup", "reverse",
+               "names", "members", "_keys", "_values", "by_value", "index", "name", "value", "cls", "self", "items", "values", "get", "dict", "data", "result"]
+
+
 def some_function():
     return 1
 
@@ -321,6 +325,9 @@ def run(shard, ctx):
             init = {}
             for nme in rng.sample(names, rng.randint(0 if i else 1, 8)):
                 init[nme] = rng.choice(ks)()
+            if rng.random() < 0.3:
+                # (the words an implementation might use for its own bookkeeping are few among the names: one of them on purpose)
+                init[rng.choice(BOOKKEEPING)] = rng.choice(ks)()
             if enums and rng.random() < 0.4:
                 # a value of an earlier enumeration listed here too, under another name (one OpCode in two command sets)
                 donor = enums[rng.randrange(len(enums))][1]
